@@ -404,7 +404,9 @@ def run(ctx, shard):
                 tuple_case(n, t)
         for n in (12, 16, 20, 32):
             with ctx.guard('get_number'):
-                for kind in ('base', 'order', 'coset'):
+                # 'order' only up to n=16: a wrong closed form can produce integers with 2^n bits (seen with a seeded change,
+                # 2^32 bits = a hang inside big-int multiplication); the contract has already judged n<=16 by then
+                for kind in (('base', 'order', 'coset') if n <= 16 else ('base', 'coset')):
                     sp.get_number(n, kind=kind)
         # random tuples, uniformly per coordinate (python ints: bases exceed 2^63 only for n>=32)
         ctx.workload('random')
